@@ -169,6 +169,9 @@ func (eng *Engine) collectEvents() {
 			for _, c := range l.Invariants {
 				walk(c.E)
 			}
+			for _, c := range l.Exits {
+				walk(c.E)
+			}
 		}
 		for _, cs := range f.Calls {
 			for _, c := range cs.Asserts {
